@@ -734,7 +734,64 @@ def c18(ctx):
                 "each input in a child process. distinct = (indentation set, graph)" % n)
 
 
+def c19(ctx):
+    binary = build()
+    # (1) the repaired algorithm is confined on every IRI of <= 5 segments x 4 cache configurations of the modelled file system ...
+    mc = Bg(lambda: model_check(ctx, "MC_Loader", workers=6, timeout=900))
+    # ... and the model can fail: the pinned commit's algorithm (no guard) is refuted
+    out = tlc(ctx, "MC_Loader", cfg="MC_Loader_pinned", workers=2, timeout=600, tag="MC_Loader_pinned")
+    if "Invariant Confinement is violated" not in out:
+        raise ToolError("the loader model no longer refutes the unguarded algorithm: Confinement is vacuous\n" + out[-1500:])
+    ctx.notes.append("Loader.tla: GetPinned (join without guard) is refuted by TLC (e.g. http://ex/a/../secret -> /srv/secret.ttl); GetFixed satisfies Confinement")
+    # (2) the world and every IRI, printed by TLC
+    out = tlc(ctx, "Gen_Loader", cfg="Gen_Loader" if ctx.quick() else "Gen_Loader_4", workers=1, timeout=900)
+    tlc_must_be_clean(out, "Gen_Loader")
+    lines = [json.loads(json.loads(l.strip())) for l in out.splitlines() if l.strip().startswith('"{')]
+    if len(lines) < 10000 or not any(x.get("world") for x in lines):
+        raise ToolError("Gen_Loader printed only %d lines" % len(lines))
+    genf = os.path.join(ctx.gen, "loader.ndjson")
+    with open(genf, "w") as f:
+        for x in lines:
+            f.write(json.dumps(x) + "\n")
+    ctx.exhaustive = True
+    # (3) the real loader in a sandbox built from that world; (4) TLC judges every call
+    tr = os.path.join(ctx.traces, "loader.ndjson")
+    nrand = 3000 if ctx.quick() else 60000
+    sv(binary, ["loader", "--gen", genf, "--seed", ctx.seed, "--random", nrand, "--out", tr], ctx=ctx, timeout=3000)
+    trace = read_trace(tr)
+    mism = trace_check(ctx, "Trace_Loader", tr, timeout=6000)
+    bad = set()
+    for line, fields in mism:
+        e = trace[line - 1]
+        bad.add(line)
+        code = fields[0]
+        if e["ev"] == "Get":
+            detail = "%s: %s(<%s>) with caches #%d returned %s %s %s" % (code, e["via"], e["str"], e["cfg"], e["out"]["k"], "/".join(e["out"]["path"]), e["out"]["msg"][:100])
+            key = "%s/%s" % (code, e["via"].split("#")[0])
+        else:
+            detail = "%s: %s" % (code, json.dumps(e)[:300])
+            key = code
+        ctx.violations.append({"key": key, "detail": detail, "event": e, "trace": tr, "line": line})
+    ctx.traces_validated += len(trace) - len(bad)
+    loaded = sum(1 for e in trace if e["ev"] == "Get" and e["out"]["k"] == "file")
+    if loaded < 50:
+        raise ToolError("only %d calls returned a file: the sandbox is not wired" % loaded)
+    for e in trace:
+        if e["ev"] == "Get":
+            ctx.distinct.add(h([e["cfg"], e["iri"], e["via"]]))
+    ctx.samples += [{"via": e["via"], "iri": e["str"], "caches": e["cfg"], "out": e["out"]["k"] + " " + "/".join(e["out"]["path"])} for e in trace[5:len(trace):max(1, len(trace) // 6)] if e["ev"] == "Get"]
+    mc.join()
+    ctx.notes.append("%d of %d recorded calls returned a file (all inside their cache directory)" % (loaded, len(trace)))
+    ctx.rule = ("Loader.tla models the file system the loader talks to (join with absolute replacement, physical '..', ENOENT/EISDIR/ENOTDIR) and the loader's algorithm (first matching namespace, guard, extension retry); "
+                "TLC proves Confinement of the repaired algorithm for every IRI of <= 5 segments over 15 segment values x 4 cache configurations (nested / overlapping), and refutes the pinned algorithm. "
+                "TLC prints the world and every IRI of <= %d segments; the harness builds that world as a sandbox (each file names itself) and calls the real LocalLoader::get (with and without fragment) and "
+                "Resource::get_resource on a link to the IRI found in loaded data; + %d seeded random IRIs of 4..8 further segments. TLC judges every call: a returned file must lie inside the directory of a configured "
+                "namespace that prefixes the IRI. distinct = (configuration, IRI, entry point)" % (3 if ctx.quick() else 4, nrand))
+    ctx.assumptions += ["no symbolic links inside the cache directories", "POSIX path semantics (the Windows prefix / backslash cases are not run)"]
+
+
 FAMILIES = {
+    "C19": c19,
     "C12": c12,
     "C18": c18,
     "C04": c04,
